@@ -18,25 +18,35 @@ from props import c16 as toy
 
 PROP = "C15"
 MANIFEST = {
-    "text": "Lean 4 theorems: (directory machine) for every directory, label, payload chunking and every crash point of "
-            "Checkpointer.save (any prefix of its file operations, last write cut anywhere) load('latest') returns what it "
-            "returned before the save or the new checkpoint — never an error; save-then-load returns the saved label and "
-            "state; 'latest' is the last completed save for every save sequence. (trainer machine, arbitrary model / loss / "
+    "text": "Lean 4 theorems: (directory machine) for EVERY well-formed save table (decidable wfSave: each final name only ever "
+            "the target of a replace from its completely written, closed temporary; pointer replaced after the checkpoint "
+            "file; 35 interleavings), every directory (stale temporaries, an existing checkpoint of the same label "
+            "included), label, payload chunking and every crash point (any prefix of the file operations, last write cut "
+            "anywhere) load('latest') returns what it returned before the save or the new checkpoint — never an error; "
+            "save-then-load returns the saved label and state; 'latest' is the last completed save for every save sequence; "
+            "a full load restores every HasStateDict object (model, additional models, optimizer, lr_scheduler, scaler), "
+            "only_models leaves the training state alone, non-HasStateDict objects are not stored. (trainer machine, arbitrary model / loss / "
             "optimiser / schedule) a clean stop after iteration t and resume at label+1, and a SIGINT inside any iteration "
             "i >= 5 (kill path saves the pre-iteration state under i-1), continue on exactly the uninterrupted trajectory "
             "(parameters, optimiser state, last_epoch hence all later learning rates, scaler); for i < 5 nothing is saved; "
             "every history of processes ended by disappearance, SIGINT or a crash inside a checkpoint save ends in the "
             "uninterrupted final state, for every k >= 1 provided each resume finds a 'latest' label t with (t+1) % k = 0 "
             "(vacuous for k = 1); otherwise exactly: the resumed process continues from the uninterrupted state with an "
-            "empty accumulator and its first step uses div_(k) of the k-r post-resume gradients (misaligned_resume). Schedulers are closed forms of last_epoch. Tied to the code by the translated "
-            "statement table of save (+ decided well-formedness), translated resume / kill-path / interval arithmetic and "
-            "scheduler formulas, strace of a real save, real load('latest') on every materialised crash state, and real "
-            "Engine.train histories with real SIGINTs compared exactly with the model.",
+            "empty accumulator and its first step uses div_(k) of the k-r post-resume gradients (misaligned_resume). Schedulers are closed forms of last_epoch (drop exactly at a milestone with its multiplicity, factor 1 from the warm-up "
+            "boundary on, linear warm-up monotone, cosine monotone whenever the uninterpreted cos term is); the scaler's "
+            "update() is part of the machine. Tied to the code by the translated "
+            "statement table of save (wfSave discharged by decide — a harmless reordering keeps the proof), translated resume / "
+            "kill-path / interval arithmetic and scheduler formulas, strace of a real save, real load('latest') on every "
+            "materialised crash state (incl. stale *.tmp), real save/load of object bundles (full / only_models / "
+            "checkpointable_objects / DataParallel), real schedulers checkpointed and resumed at every point of 1..60-iteration "
+            "schedules (thorough), and real Engine.train histories with real SIGINTs compared exactly with the model.",
     "note": "Trusted: Lean kernel, AST translator, strace canonicalisation, 'os.replace is atomic / open(w) truncates / write "
             "appends / a torch file is loadable iff complete' (the last one is probed on every run with truncated real "
             "files), no fsync / power-loss modelling below rename, torch.save/load round trip as decode(encode s) = s, "
-            "GradScaler disabled (CPU). With gradient accumulation a checkpoint inside a window loses the accumulated "
-            "gradients: resume theorems require a window boundary (always for k = 1); reported under C16 (resume-mid-window). "
+            "a real enabled GradScaler needs CUDA: the harness uses a counting scaler subclass (state evolves with update()). "
+            "With gradient accumulation a checkpoint inside a window loses the accumulated gradients: the history theorem "
+            "holds for every k under AlignedHist (each resume finds a label t with (t+1) % k = 0, vacuous for k = 1) and "
+            "misaligned_resume states exactly what happens otherwise; that case is the known C16 finding resume-mid-window. "
             "Cosine schedule: cos is an uninterpreted function; exact model comparison only for WarmupMultiStepLR with dyadic "
             "parameters; Adam / cosine runs are compared real-vs-real bit-exactly.",
     "technique": "Lean 4 proof (frames over a name->bytes directory, inductive crash prefixes, invariant over process "
@@ -841,8 +851,20 @@ def gen_bundle(rng):
     return saver, loader, mode, keys
 
 
+OBSERVATIONS = [
+    "Checkpointer.load(iteration, checkpointable_objects={name: obj}) only uses the dict's KEYS: the objects restored are "
+    "self.checkpointables[name] (KeyError if the loader does not hold `name`; `model` is always restored); modelled as such "
+    "(Bundle.Mode.select), compared with the real code on every run — not part of the property",
+    "a SIGINT during iteration 0 makes the kill path die with ZeroDivisionError in CommonMetricPrinter.write (nothing is "
+    "saved for iter_idx < 5 anyway)",
+    "an object that is not a HasStateDict (e.g. an enabled torch.amp.GradScaler('cpu'), which is not a "
+    "torch.cuda.amp.GradScaler) is silently left out of the checkpoint (theorem non_stateful_object_is_not_restored)",
+]
+
+
 def oracle(ctx: Ctx, deep: bool = False):
     rng = ctx.rng
+    ctx.notes.extend("observation: " + o for o in OBSERVATIONS)
     st = ctx.__dict__.get("c15")
     if st is None:
         prepare(ctx)
